@@ -35,6 +35,25 @@ class NodeNotFoundError(Exception):
             % key)
 
 
+class CircularDependencyError(Exception):
+    """A circular dependency was found in the graph.
+
+    The requested dependencies cannot all be satisfied.
+    """
+
+    def __init__(self, key):
+        """Initialize the error.
+
+        Args:
+            key (unicode):
+                The key of a node taking part in the circular dependency.
+        """
+        super(CircularDependencyError, self).__init__(
+            'A circular dependency involving the graph node "%s" was found. '
+            'The requested dependencies cannot all be satisfied.'
+            % key)
+
+
 class Node(object):
     """A node in a graph.
 
@@ -319,6 +338,22 @@ class DependencyGraph(object):
                                         reverse=True)
 
                         processed.add(node)
+
+        # Make sure every node was ordered, and that each follows all of
+        # its dependencies. If not, the dependencies contain a cycle and
+        # cannot all be satisfied.
+        positions = dict(
+            (node, i)
+            for i, node in enumerate(result)
+        )
+
+        for node in six.itervalues(self._nodes):
+            if node not in positions:
+                raise CircularDependencyError(node.key)
+
+            for dep in node.dependencies:
+                if positions[dep] > positions[node]:
+                    raise CircularDependencyError(node.key)
 
         return result
 
